@@ -379,7 +379,13 @@ def c18_server(path, ready_path=None, tcp_port=None, backlog=None):
     async def noarg():
         return 'noarg-ok'
 
+    async def unpicklable(data):
+        import threading
+
+        return (data, threading.Lock())  # a response that cannot be sent
+
     app = SocketApplication()
+    app.add_route('/unpicklable', unpicklable)
     app.add_route('/tagged', tagged)
     app.add_route('/raw', raw)
     app.add_route('/echo', echo)
